@@ -64,7 +64,9 @@ ASSUMPTIONS = [
 ]
 EXHAUSTIVE = {"quick": False, "thorough": False}
 
-XFORMS = (("s=1:t=0", 1.0, 0.0), ("s=1e-4:t=0", 1e-4, 0.0), ("s=1e4:t=0", 1e4, 0.0), ("s=1:t=1e5", 1.0, 1e5), ("s=1e4:t=1e5", 1e4, 1e5))
+XFORMS = (("s=1:t=0", 1.0, 0.0), ("s=1e-4:t=0", 1e-4, 0.0), ("s=1e4:t=0", 1e4, 0.0), ("s=1:t=1e5", 1.0, 1e5), ("s=1e4:t=1e5", 1e4, 1e5),
+          # a part of ordinary size a few thousand kilometres from the origin (coordinates in mm)
+          ("s=1:t=3e6", 1.0, 3e6))
 
 
 # ------------------------------------------------------------------------------------------
@@ -488,7 +490,7 @@ def support_class(mb, d):
     return str(k)
 
 
-def check_sphere(run, cx, obj, route, mb=None):
+def check_sphere(run, cx, obj, route, mb=None, minimal=True):
     from trimesh import nsphere
 
     P, d = cx.P, cx.d
@@ -517,6 +519,8 @@ def check_sphere(run, cx, obj, route, mb=None):
     tol = 1e-7 * cx.ext + 1e-11 * cx.off
     if far > r + tol:
         _v(run, cx, key + " sym=not_containing", "a point lies outside the bounding sphere", cx.wit(route=route, outside_by=far - r, radius=r))
+    if not minimal:
+        return  # history routes: the same sphere code as the direct routes, judged for containment only
     if scls in ("2", "3", "4"):
         run.count("sphere_minimality_judged_support_%s_%s" % (scls, cx.klass()))
         if r > mb["radius"] * (1 + 1e-6) + tol:
@@ -750,6 +754,61 @@ def run_mesh(run, mesh, cls, xf, heavy):
         check_primitive(run, cx, mesh, "Trimesh")
 
 
+def run_mesh_history(run, mesh, cls, xf):
+    """
+    Bounding volumes asked again after the mesh (or a cache-sharing copy of it) was moved: what
+    was computed for the first placement must neither stay behind nor travel with the wrong object.
+    """
+    import copy as _copy
+
+    import trimesh
+
+    P0 = np.asarray(mesh.vertices, dtype=np.float64).copy()
+    F0 = np.asarray(mesh.faces).copy()
+    if len(P0) < 4:
+        return
+    m = trimesh.Trimesh(P0.copy(), F0.copy(), process=False)
+    cx0 = Ctx(P0, cls, xf, 3)
+    run.count("mesh_histories")
+    try:
+        # first placement: everything computed (and cached)
+        _ = m.convex_hull, m.bounding_box_oriented, m.bounding_sphere, m.bounds
+        # (1) a copy that keeps the cache is moved: the original must still be bounded where it is
+        c = _copy.copy(m)
+        R = rand_rot(run.rng)
+        M = np.eye(4)
+        M[:3, :3] = R
+        M[:3, 3] = np.array([7.0, -11.0, 5.0]) * max(1.0, float(np.abs(P0).max()))
+        c.apply_transform(M)
+        check_hull(run, cx0, m.convex_hull, "Trimesh:after_copy_moved")
+        check_aabb(run, cx0, m, "Trimesh:after_copy_moved")
+        check_obb(run, cx0, m, "Trimesh:after_copy_moved")
+        check_sphere(run, cx0, m, "Trimesh:after_copy_moved", minimal=False)
+        P1 = P0 @ R.T + M[:3, 3]
+        cx1 = Ctx(P1, cls, xf, 3)
+        check_hull(run, cx1, c.convex_hull, "Trimesh:moved_copy")
+        check_aabb(run, cx1, c, "Trimesh:moved_copy")
+        check_obb(run, cx1, c, "Trimesh:moved_copy")
+        # (2) the mesh itself is moved after its volumes were computed
+        m.apply_transform(M)
+        check_hull(run, cx1, m.convex_hull, "Trimesh:after_move")
+        check_aabb(run, cx1, m, "Trimesh:after_move")
+        check_obb(run, cx1, m, "Trimesh:after_move")
+        check_sphere(run, cx1, m, "Trimesh:after_move", minimal=False)
+        # (3) an in-place edit of one vertex (pulled far out): every volume must grow to hold it
+        P2 = P1.copy()
+        k = int(run.rng.integers(len(P2)))
+        P2[k] = P2[k] + (P2[k] - P2.mean(axis=0)) * 3.0 + 1.0
+        m.vertices[k] = P2[k]
+        if k in set(np.asarray(m.faces).reshape(-1).tolist()):
+            cx2 = Ctx(P2, cls, xf, 3)
+            check_hull(run, cx2, m.convex_hull, "Trimesh:after_vertex_edit")
+            check_aabb(run, cx2, m, "Trimesh:after_vertex_edit")
+            check_obb(run, cx2, m, "Trimesh:after_vertex_edit")
+    except Exception as e:  # noqa
+        _v(run, cx0, "history route=Trimesh sym=exception:%s" % type(e).__name__, "a bounding query raised in a move / copy history: %r" % (e,), cx0.wit())
+
+
 def xform(P, s, t):
     return P * s + t * np.array([1.0, -1.0, 0.5][: P.shape[1]])
 
@@ -790,6 +849,7 @@ def workload(run):
         k += 1
         Vf = xform(np.asarray(V, dtype=np.float64) @ rand_rot(rng).T, s, t)
         run_mesh(run, G.to_trimesh(Vf, F), "mesh:" + tag, xf, heavy=k % 2 == 0)
+        run_mesh_history(run, G.to_trimesh(Vf, F), "mesh:" + tag, xf)
         if run.out_of_time(0.6):
             break
     for name, make in (("cylinder", lambda: trimesh.creation.cylinder(radius=0.7, height=2.5, sections=12)),
@@ -811,6 +871,7 @@ def workload(run):
         m.apply_transform(M)
         run.state("mesh_symmetry", (name, str(getattr(m, "symmetry", None))))
         run_mesh(run, m, "creation:" + name, xf, heavy=True)
+        run_mesh_history(run, m, "creation:" + name, xf)
     # (3) degenerate input: may be refused, never judged for fullness
     if run.mine(idx + 1):
         for cls, P in degenerate_clouds(rng):
